@@ -55,6 +55,12 @@ CHECKS.update(
         note="Rule table in pvlib/harness/c06.py is the oracle (transcribed from docs/user/nonmult.rst and the property statement). Exact arithmetic; real exp/log accuracy outside; scales assumed > 0.",
         design="4/C06",
     ),
+    C15=dict(
+        text="to_root_units/to_base_units/to_reduced_units/to_compact/to_preferred and their in-place twins run on a symbolic magnitude: same dimensionality and equal root magnitude proved for all magnitudes; "
+        "in-place == functional; to_compact's [1,1000) clause proved over 72 decades under an ideal log10 contract; reduced units checked for mergeable pairs against the independent reader; auto-reduce / auto-preferred registries keep the value.",
+        note="math shim inside qto (ideal log10, floor/ceil via ToInt) is a stub and part of the claim; MIP search runs concretely; NaN/inf, uncertain magnitudes outside.",
+        design="4/C15",
+    ),
     C20=dict(
         text="Every entry of an independently written table of standard values (about 230 units/constants, 32 prefixes, 5 temperature scales) is compared with the real registry "
         "for all magnitudes x (linear/affine map proved by z3), plus symbol and dimensionality. The solver's role is small; the strength is the independent table.",
